@@ -96,6 +96,7 @@ type Ctl struct {
 	CreatePlotted func(key string) bool                    // should a newly created DB be already complete
 	FreeOutcome   func(db *FakeDB) (string, time.Duration) // free-running: outcome and duration
 	StopDelay     func(db *FakeDB) time.Duration           // optional: how long a stopped plot takes to wind down
+	ProofDelay    time.Duration                            // optional: how long a table lookup (GetProof) takes
 	OnPlotStart   func(db *FakeDB)                         // called when a scripted plot starts (any goroutine)
 	real          bool
 }
@@ -281,6 +282,13 @@ func InstallBackend() {
 	})
 }
 
+// SetProofDelay sets how long a scripted table lookup takes from now on.
+func (c *Ctl) SetProofDelay(d time.Duration) {
+	c.mu.Lock()
+	c.ProofDelay = d
+	c.mu.Unlock()
+}
+
 // UseRealBackend makes this controller's directories use the real massdb.v1.
 func (c *Ctl) UseRealBackend() { c.real = true }
 
@@ -341,6 +349,12 @@ func (d *FakeDB) PubKeyHash() pocutil.Hash { return pocutil.PubKeyHash(d.pk) }
 func (d *FakeDB) Ready() bool              { d.mu.Lock(); defer d.mu.Unlock(); return d.Done }
 func (d *FakeDB) GetProof(challenge pocutil.Hash, filter bool) (*poc.DefaultProof, error) {
 	d.noteUse("GetProof")
+	d.c.mu.Lock()
+	delay := d.c.ProofDelay
+	d.c.mu.Unlock()
+	if delay > 0 {
+		time.Sleep(delay) // a table lookup on a disk that is busy
+	}
 	return nil, ErrFakeNoProof
 }
 
